@@ -261,11 +261,24 @@ def tamper_v4(data, raw, head, level, pos):
     return data[:head] + bz2.compress(_sub(raw, pos))
 
 
-def guarded(fn, cpu_limit=2.0, wall_limit=900.0):
+def guarded(fn, prepare=None, cpu_limit=3.0):
+    """Run fn(prepare()) under a watchdog; ["hang", ...] only when it overruns twice in a row (a real busy loop repeats, a
+    hiccup of a loaded machine does not)."""
+    res = None
+    for attempt_no in range(2):
+        prep = prepare() if prepare is not None else None
+        res = _guarded_once((lambda: fn(prep)) if prepare is not None else fn, cpu_limit)
+        if res[0] != "hang":
+            return res
+    return res
+
+
+def _guarded_once(fn, cpu_limit, wall_limit=900.0):
     """Run fn() in a forked child and return its (JSON-able) result, or ["hang", ...] when the child burns more than
     cpu_limit seconds of USER time without finishing (a damaged container can send bzrformats' pack reader into a busy loop
     that no Python-level watchdog can interrupt; an install needs about 0.05 s).  User time, not wall or system time, so
-    that a loaded machine (slow fork, page faults) does not fake a hang."""
+    that a loaded machine (slow fork, page faults) does not fake a hang; everything that can be prepared beforehand is
+    prepared in the parent."""
     r, w = os.pipe()
     pid = os.fork()
     if pid == 0:
@@ -346,12 +359,17 @@ class Job:
         parents = [[num(p) for p in pm.get(rid(k), ()) if p != b"null:"] for k in range(1, self.n + 1)]
         return revs, test, parents, extra
 
-    def install(self, data, base):
-        """Install bundle bytes into a fresh repository holding Ancestry(base): (before, state | None, error | None)."""
-        from breezy.bzr.bundle.serializer import read_bundle
+    def prepare(self, base):
+        """A fresh repository holding Ancestry(base), and its revisions."""
         repo = self.fresh_repo(base)
         with repo.lock_read():
             before = sorted(num(r) for r in repo.all_revision_ids())
+        return repo, before
+
+    def install(self, data, base, prep=None):
+        """Install bundle bytes into a fresh repository holding Ancestry(base): (before, state | None, error | None)."""
+        from breezy.bzr.bundle.serializer import read_bundle
+        repo, before = prep or self.prepare(base)
         try:
             info = read_bundle(io.BytesIO(data))
             with repo.lock_write():
@@ -415,11 +433,11 @@ class Job:
             if bad == data:
                 continue
 
-            def attempt(bad=bad):
-                res = self.install(bad, base)
+            def attempt(prep=None, bad=bad):
+                res = self.install(bad, base, prep)
                 return [self.classify(st, res), res[2] or ""]
             # a damaged bz2 stream can send the container reader into a busy loop: those installs run under the watchdog
-            outcome, detail = guarded(attempt) if name.startswith("bz2-") else attempt()
+            outcome, detail = guarded(attempt, lambda: self.prepare(base)) if name.startswith("bz2-") else attempt()
             o["tamper"].append({"section": name, "outcome": outcome, "pos": list(where) if fmt == "4" else where, "detail": detail})
         return o, info
 
@@ -535,8 +553,7 @@ class Job:
                         md2.install_revisions(repo)
                         good = self.state(repo)
 
-                    def attempt(t3=t3, good=good):
-                        repo = self.fresh_repo(submit)
+                    def attempt(repo, t3=t3, good=good):
                         try:
                             t3.install_revisions(repo)
                             return ["same" if self.state(repo) == good else "changed", ""]
@@ -544,7 +561,7 @@ class Job:
                             raise
                         except BaseException as e:      # noqa: BLE001
                             return ["rejected", type(e).__name__]
-                    outcome, detail = attempt()       # install_revisions(stream_input=False): a cut stream raises
+                    outcome, detail = guarded(attempt, lambda: self.fresh_repo(submit))
                     o["bundleTamper"].append({"section": "base64-text", "outcome": outcome, "pos": pos, "detail": detail})
             # ---- merging by the directive vs merging from the branch
             if do_merge:
@@ -649,7 +666,8 @@ def signatures(row, law):
     md = c["md"]
     combo = "".join(k[0] for k in ("msg", "patch", "bundle", "src") if md[k]) or "-"
     if law == "bundletamper":
-        return ["bundletamper:MergeDirective2:base64-text:accepted-changed"]
+        return sorted({"bundletamper:MergeDirective2:base64-text:%s" % ("accepted-changed" if t["outcome"] == "changed" else t["outcome"])
+                       for t in o["bundleTamper"] if t["outcome"] not in ("rejected", "same")})
     if law == "patchtamper":
         return ["patchtamper:MergeDirective2._verify_patch:accepted"]
     if law == "roundtrip":
@@ -751,19 +769,8 @@ def judge(ctx, rows, hists):
     ctx.cov["binding_selftest_probes"] = len(probes)
 
 
-def run(ctx):
-    env.init()
-    import breezy.merge  # noqa: F401  (imported before forking)
-    import breezy.merge_directive  # noqa: F401
-    import breezy.bzr.testament  # noqa: F401
-    import breezy.bzr.bundle.serializer.v4  # noqa: F401
-    import breezy.bzr.bundle.serializer.v09  # noqa: F401
-    maxrev = 4 if ctx.quick else 5
-    # ---- E1 + E2: TLC checks the laws on the specification for every graph, exports the case table
-    data, _ = tlc.json_cases(ctx, "BundleGen", cfg_text=gen_cfg(maxrev), label="BundleGen graphs<=%d" % maxrev, workers=4,
-                             timeout=3000)
-    for w in WITNESSES:
-        tlc.check(ctx, "BundleGen", cfg_text=gen_cfg(4, (w,)), expect_violation=w, label="witness " + w, workers=4)
+def plan_jobs(ctx, data):
+    """Which histories are replayed and how much of each: (hists, plans, jobs, sizes)."""
     hists = data["hist"]
     if data["n"] != len(hists) or not hists:
         ctx.machinery("TLC exported %d of %s graphs" % (len(hists), data["n"]))
@@ -805,6 +812,24 @@ def run(ctx):
         # the combinations that are also merged: directives with a bundle, and one that names the source branch only
         merge_combos = [with_bundle[(j + i) % len(with_bundle)] for i in range(nmerge)] + [without[j % len(without)]]
         jobs.append((h, pat, exotic, sfmt, bcases, mcases, combos, merge_combos, ntamper, ctx.rng.getrandbits(32)))
+    return hists, plans, jobs, z
+
+
+def run(ctx):
+    env.init()
+    import breezy.merge  # noqa: F401  (imported before forking)
+    import breezy.merge_directive  # noqa: F401
+    import breezy.bzr.testament  # noqa: F401
+    import breezy.bzr.bundle.serializer.v4  # noqa: F401
+    import breezy.bzr.bundle.serializer.v09  # noqa: F401
+    maxrev = 4 if ctx.quick else 5
+    # ---- E1 + E2: TLC checks the laws on the specification for every graph, exports the case table
+    data, _ = tlc.json_cases(ctx, "BundleGen", cfg_text=gen_cfg(maxrev), label="BundleGen graphs<=%d" % maxrev, workers=4,
+                             timeout=3000)
+    for w in WITNESSES:
+        tlc.check(ctx, "BundleGen", cfg_text=gen_cfg(4, (w,)), expect_violation=w, label="witness " + w, workers=4)
+    hists, plans, jobs, z = plan_jobs(ctx, data)
+    ntamper, nmd, nmerge = z["ntamper"], z["nmd"], z["nmerge"]
     core.fork_map(ctx, replay_jobs, jobs, chunks_per_proc=8)
     rows = ctx.collected
     if not rows:
